@@ -252,6 +252,48 @@ func (fx *FnExec) enterLoop(fr *frame, li *loopInfo, lc *LoopContract, st *State
 			st.locals[a] = fx.freshVal(t, "loop."+a.Comment)
 		}
 	}
+	// call-trace ghosts of callees called in the loop: unknown after any number of iterations,
+	// except that "called" and the count only grow
+	if len(li.modTrace) > 0 {
+		var tk []string
+		for k := range li.modTrace {
+			tk = append(tk, k)
+		}
+		sort.Strings(tk)
+		for _, k := range tk {
+			pre := "call|" + k + "|"
+			var gk []string
+			for g := range st.ghost {
+				if strings.HasPrefix(g, pre) {
+					gk = append(gk, g)
+				}
+			}
+			sort.Strings(gk)
+			before, _ := st.ghost[pre+"called"].(*Term)
+			cntBefore, _ := st.ghost[pre+"count"].(*Term)
+			for _, g := range gk {
+				delete(st.ghost, g)
+			}
+			called := c.Fresh("loop.called", BoolSort)
+			if before != nil {
+				fx.assumeGlobal(c.Implies(before, called))
+			}
+			st.ghost[pre+"called"] = called
+			cnt := c.Fresh("loop.callcount", BV(64))
+			if cntBefore == nil {
+				cntBefore = fx.bv64(0)
+			}
+			fx.assumeGlobal(c.And(c.BVCmp("bvsle", cntBefore, cnt), c.BVCmp("bvsle", cnt, c.BVConst(mask(maxLenBits), 64))))
+			fx.assumeGlobal(c.Implies(c.BVCmp("bvslt", fx.bv64(0), cnt), called))
+			st.ghost[pre+"count"] = cnt
+			// results / arguments / sequence number of the last call: unknown (left unset: read as unconstrained)
+		}
+		if seq, ok := st.ghost["callseq"].(*Term); ok {
+			ns := c.Fresh("loop.callseq", BV(64))
+			fx.assumeGlobal(c.BVCmp("bvsle", seq, ns))
+			st.ghost["callseq"] = ns
+		}
+	}
 	var gnames []string
 	for g := range li.modGhost {
 		gnames = append(gnames, g)
